@@ -303,6 +303,17 @@ TopFits(K, m, list) ==
       THEN list
     ELSE FitNode(K, m, c)
 
+(* slot occurrences of the template (for case classes)                        *)
+RECURSIVE SlotOccs(_, _, _)
+SlotOccs(K, m, t) ==
+  UNION {UNION {LET f == NFields(t)[i]  s == SlotOf(K, m, t, f.n, j, f.c[j]) IN
+                IF s.g = "-" THEN SlotOccs(K, m, f.c[j])
+                ELSE {[g |-> s.g, k |-> NKind(t), fn |-> f.n, form |-> s.form]}
+                : j \in 1..Len(NFields(t)[i].c)} : i \in 1..Len(NFields(t))}
+TopOccs(K, m) == UNION {SlotOccs(K, m, K.T[j]) : j \in 1..Len(K.T)}
+CapKinds(K, m, g) == IF g = "" THEN {NKind(K.M[m].x)}
+                     ELSE LET el == CapOf(K, m, g).el IN {NKind(el[i][1].s) : i \in 1..Len(el)}
+
 (* the template has the syntactic category of what it replaces                *)
 CatFits(K, m) ==
   LET mc == KindCat(NKind(K.M[m].x)) IN
